@@ -37,6 +37,9 @@ void harness(void) {
   int len = nd_native(FAMILY, &sl);
   PSocketAddress *addr = p_socket_address_new_from_native(&sl, (psize) len);
   VASSERT(addr != NULL && p_socket_bind(S, addr, TRUE, &err) && p_socket_listen(S, &err), "bind + listen");
+  _Bool lka = ND_BOOL(), xka = ND_BOOL();
+  p_socket_set_keepalive(S, nd_pbool(lka));       /* the accepted descriptor inherits the listener's option */
+  VASSERT(VFD(keepalive, fd) == lka && (p_socket_get_keepalive(S) != 0) == lka, "listener: option and getter = truth(v)");
   vs_preconn(fd);
   vs.env_mask = 1 << VS_ENV_CONN; vs.env_kind = VS_ENV_CONN; vs.env_fd = fd;
   _Bool early = ND_BOOL();
@@ -50,6 +53,9 @@ void harness(void) {
     const int xfd = p_socket_get_fd(X);
     VASSERT(xfd != fd && VFD(open, xfd) && VFD(cloexec, xfd), "descriptor from p_socket_accept is close-on-exec");
     VASSERT(VFD(nonblock, xfd), "descriptor from p_socket_accept is non-blocking");
+    VASSERT(VFD(keepalive, xfd) == lka && (p_socket_get_keepalive(X) != 0) == lka, "get_keepalive of an accepted socket = the descriptor's (inherited) SO_KEEPALIVE option");
+    p_socket_set_keepalive(X, nd_pbool(xka));
+    VASSERT(VFD(keepalive, xfd) == xka && (p_socket_get_keepalive(X) != 0) == xka, "set_keepalive(v) on the accepted socket: descriptor option and getter = truth(v)");
     p_socket_free(X);
   }
   p_socket_address_free(addr);
